@@ -246,6 +246,9 @@ pub enum Tamper {
     MicEpoch(i8),
     /// replace the MIC by 4 fixed bytes
     ZeroMic,
+    /// an authentic frame with an out-of-range header field: one byte of MHDR / FHDR / FOpts / FPort (offset modulo
+    /// the frame body) is XOR-ed and the MIC is then computed, under the right key, over the mutated frame
+    Resigned { offset: u8, xor: u8 },
 }
 
 #[derive(Clone, Debug, PartialEq, Eq, Serialize, Deserialize)]
@@ -333,6 +336,15 @@ pub struct Txn {
     /// RX2); the application had stored the session at that moment and restores a fresh device from it (C20)
     #[serde(default)]
     pub nb_power_cut: Option<u8>,
+    /// nb: the application issues a request that the state machine cannot serve now, at the given point of the
+    /// procedure (bits 0-1: 1 = while waiting for RX1 to open, 2 = inside RX1, 3 = while waiting for RX2;
+    /// bits 2-3: 0 = SendDataRequest, 1 = Join, 2 = a stray TxComplete radio event); it must be refused and change nothing
+    #[serde(default)]
+    pub nb_intrude: u8,
+    /// Join: the application has re-provisioned the device: this attempt (and later ones) use the other set of
+    /// OTAA credentials (JoinEUI, DevEUI, AppKey)
+    #[serde(default)]
+    pub alt_identity: bool,
 }
 
 #[derive(Clone, Debug, PartialEq, Eq, Serialize, Deserialize)]
@@ -531,6 +543,16 @@ fn simplify_txn(t: &Txn) -> Vec<Txn> {
         c.nb_timer_late_ms = 0;
         c.nb_spurious = 0;
         c.tx_ms = 0;
+        out.push(c);
+    }
+    if t.nb_intrude != 0 {
+        let mut c = t.clone();
+        c.nb_intrude = 0;
+        out.push(c);
+    }
+    if t.alt_identity {
+        let mut c = t.clone();
+        c.alt_identity = false;
         out.push(c);
     }
     if t.nb_power_cut == Some(2) {
